@@ -34,6 +34,11 @@ pub fn replay() {
         // binding: the real rendering is the spec's rendering for the order the code loaded, and one of the admissible renderings
         if real != det { problems.push(format!("real rendering {:?}, spec rendering for the loaded order {:?}", real, det)); }
         if let Some(r) = &real { if !choices.contains(r) { problems.push(format!("real rendering {:?} is not among the admissible renderings {:?}", r, choices)); } }
+        // the word renderer prints that rendering, and the replacement character for a segment that has none (doc: "ASCA is unable to render a segment in IPA")
+        let wtext = v::render_word(&v::make_word(&[(vec![seg], 0, 0)], false), &al);
+        let wexp = real.clone().unwrap_or("\u{FFFD}".to_string());
+        if wtext != wexp { problems.push(format!("the word renderer prints {:?} for a segment whose rendering is {:?}", wtext, real)); }
+        if real.is_none() { sum.count("targets_without_rendering", 1); }
         if mode == "C01" {
             // the property proper: the rendering does not depend on the (unspecified) order of equally good candidates
             // -> on a tree whose order is fixed by construction this is implied by `real == det` in every process; on a tree with a random order it is the statement nchoices <= 1
